@@ -2,6 +2,7 @@ package props
 
 import (
 	"bytes"
+	"encoding/hex"
 	"encoding/json"
 	"fmt"
 	"strings"
@@ -32,6 +33,10 @@ type c15Params struct {
 	// OuterPMTU != 0: the server is reached through a listener configuration with this PMTU whose
 	// GetConfigForClient returns the configuration with PMTUS (the one in force for the connection)
 	OuterPMTU int `json:"outer_pmtu,omitempty"`
+	// Resumed: the measured connection resumes a session made by an earlier connection (no losses then: the named
+	// datagrams of the full handshake do not exist). Tight: ReadFrom is given a buffer of exactly the payload's size.
+	Resumed bool `json:"resumed,omitempty"`
+	Tight   bool `json:"tight,omitempty"`
 	// ChainPad: extra certificates in the server's chain, so that the Certificate message exceeds one record
 	ChainPad int `json:"chain_pad,omitempty"`
 }
@@ -41,7 +46,7 @@ var c15LossNames = []string{"CH0#1", "CH1#1", "HVR#1", "F5b#1", "F6#1"}
 func (c15) ID() string    { return "C15" }
 func (c15) Level() string { return "exploration" }
 func (c15) Rule() string {
-	return "each case draws a suite, a path MTU for each side independently (from 200 up to above the record limit, 0 = default 1400), client authentication on/off, a list of WriteTo payload sizes around the boundaries (0, 1, the exact maximum payload for that MTU and suite computed by the reference record format, one and sixteen bytes above it, 16384) for both directions, optionally one large Write through the stream API, 0-2 losses of handshake datagrams whose retransmission is known to work (so that retransmitted flights are measured too), optionally a server reached through a listener configuration of another PMTU whose GetConfigForClient returns the configuration in force, and optionally a server certificate chain that makes the Certificate message 16.4-17.3 KB (a handshake message above the record limit). Oracle (wire monitor over everything handed to the PacketConn): every datagram <= the sender's path MTU; no record with more than 16384 plaintext bytes; a retransmitted flight whose first transmission was within the path MTU stays within it; a WriteTo of at most the maximum payload is exactly one datagram and the peer's ReadFrom returns exactly that payload; larger writes through Write arrive complete and in order. distinct = distinct parameter vectors; non-trivial = handshake completed and at least one boundary-size payload crossed"
+	return "each case draws a suite, a path MTU for each side independently (from 200 up to above the record limit, 0 = default 1400), client authentication on/off, a list of WriteTo payload sizes around the boundaries (0, 1, the exact maximum payload for that MTU and suite computed by the reference record format, one and sixteen bytes above it, 16384) for both directions, optionally one large Write through the stream API, optionally on a resumed connection, ReadFrom buffers either large or exactly the size of the payload due, 0-2 losses of handshake datagrams whose retransmission is known to work (so that retransmitted flights are measured too), optionally a server reached through a listener configuration of another PMTU whose GetConfigForClient returns the configuration in force, and optionally a server certificate chain that makes the Certificate message 16.4-17.3 KB (a handshake message above the record limit). Oracle (wire monitor over everything handed to the PacketConn): every datagram <= the sender's path MTU; no record with more than 16384 plaintext bytes; a retransmitted flight whose first transmission was within the path MTU stays within it; a WriteTo of at most the maximum payload is exactly one datagram and the peer's ReadFrom returns exactly that payload; larger writes through Write arrive complete and in order. distinct = distinct parameter vectors; non-trivial = handshake completed and at least one boundary-size payload crossed"
 }
 func (c15) Components() (real, stub []string) {
 	return []string{"dtlcp client+server (instrumented): record sizing, handshake fragmentation, flight buffering and flush, retransmission"},
@@ -127,7 +132,12 @@ func drawC15(src *vs.Src) *c15Params {
 			p.PMTUS = 16384 + src.Intn(3000)
 		}
 	}
+	p.Tight = src.Bool(1, 2)
+	p.Resumed = src.Bool(1, 4)
 	nl := src.Intn(3)
+	if p.Resumed {
+		nl = 0
+	}
 	for i := 0; i < nl; i++ {
 		p.Loss = append(p.Loss, src.Intn(len(c15LossNames)))
 	}
@@ -148,11 +158,14 @@ func (c15) Run(c *Case, src *vs.Src) *Result {
 	}
 	r.Sample = p
 	sigp := "C15 " + SuiteName(p.Suite)
-	w := NewWorld(c.Seed, src)
-	w.K.MaxElapsed = 200 * time.Second
-	env := NewEnv(w)
 	cc := &EPConf{Suites: []uint16{p.Suite}, ServerName: "server.test", PMTU: p.PMTUC}
 	sc := &EPConf{Suites: []uint16{p.Suite}, Certs: []string{"server_sig", "server_enc"}, ClientCAs: []string{"ca1"}, PMTU: p.PMTUS, ChainPad: p.ChainPad}
+	var cacheC, cacheS dtlcp.SessionCache
+	knownSessions := map[string][]byte{}
+	if p.Resumed {
+		cc.Cache, sc.Cache = "c", "s"
+		cacheC, cacheS = dtlcp.NewLRUSessionCache(4), dtlcp.NewLRUSessionCache(4)
+	}
 	if p.OuterPMTU != 0 {
 		sc.Clone, sc.OuterPMTU = 2, p.OuterPMTU
 	}
@@ -164,6 +177,34 @@ func (c15) Run(c *Case, src *vs.Src) *Result {
 	}
 	if IsECDHE(p.Suite) {
 		sc.WrapKeys = true
+	}
+	if p.Resumed {
+		// the connection that makes the session
+		w0 := NewWorld(c.Seed+1, src)
+		w0.K.MaxElapsed = 60 * time.Second
+		env0 := NewEnv(w0)
+		env0.DCaches["c"], env0.DCaches["s"] = cacheC, cacheS
+		pair0 := NewPair(DTLCP, env0, cc, sc, "c0", "s0", "client:1", "server:443")
+		out0 := &HSOut{}
+		SpawnHandshakeEcho(w0, pair0, EchoOpts{}, out0, "")
+		reason0, _ := w0.Run()
+		w0.Finish(r, sigp)
+		if reason0 == vs.Done && out0.CErr == nil && out0.SErr == nil {
+			sec0 := &ref.Secrets{KeyFor: keyResolver("server_sig", "server_enc", "client_sig", "client_enc"), Eph: env0.KeyOps.Eph, Sessions: map[string][]byte{}}
+			if v0 := pair0.Observe(sec0); v0.SH != nil && len(v0.Master) > 0 {
+				knownSessions[hex.EncodeToString(v0.SH.SessionID)] = v0.Master
+			}
+		}
+		if reason0 != vs.Done || out0.CErr != nil || out0.SErr != nil {
+			r.Violate("handshake-failed", sigp+" handshake-failed", "the connection that creates the session failed: %s %v %v (path MTU client %d / server %d)", reason0, out0.CErr, out0.SErr, pmtuOf(p.PMTUC), pmtuOf(p.PMTUS))
+			return r
+		}
+	}
+	w := NewWorld(c.Seed, src)
+	w.K.MaxElapsed = 200 * time.Second
+	env := NewEnv(w)
+	if p.Resumed {
+		env.DCaches["c"], env.DCaches["s"] = cacheC, cacheS
 	}
 	pair := NewPair(DTLCP, env, cc, sc, "c", "s", "client:1", "server:443")
 	pair.Net.Namer = c19Datagram
@@ -245,8 +286,11 @@ func (c15) Run(c *Case, src *vs.Src) *Result {
 		}
 		recv := func() {
 			buf := make([]byte, 20000)
-			for range theirs {
+			for k := range theirs {
 				me.SetReadDeadline(vs.Now().Add(15 * time.Second))
+				if p.Tight {
+					buf = make([]byte, theirs[k]) // exactly as large as the payload that is due
+				}
 				n, err := d.ReadFromAny(buf)
 				if err != nil {
 					st.readErr = err
@@ -259,6 +303,7 @@ func (c15) Run(c *Case, src *vs.Src) *Result {
 				st.bigGot, st.bigErr = readFull(me, len(bigData))
 			}
 			if !first && p.Zero {
+				buf = make([]byte, 20000)
 				for k := 0; k < 2; k++ {
 					me.SetReadDeadline(vs.Now().Add(3 * time.Second))
 					n, err := d.ReadFromAny(buf)
@@ -387,7 +432,7 @@ func (c15) Run(c *Case, src *vs.Src) *Result {
 		r.Violate("empty-payload", "C15 empty-payload", "WriteTo of an empty payload followed by a 6-byte marker: the peer's ReadFrom calls returned sizes %v (want [0 6])", si.zeroGot)
 	}
 	// ---- one WriteTo = one datagram, no record above 16384: monitor
-	sec := &ref.Secrets{KeyFor: keyResolver("server_sig", "server_enc", "client_sig", "client_enc"), Eph: env.KeyOps.Eph, Sessions: map[string][]byte{}}
+	sec := &ref.Secrets{KeyFor: keyResolver("server_sig", "server_enc", "client_sig", "client_enc"), Eph: env.KeyOps.Eph, Sessions: knownSessions}
 	if len(p.Loss) == 0 {
 		v := pair.Observe(sec)
 		for _, e := range v.Errors {
